@@ -1,0 +1,25 @@
+//go:build verif
+
+package core
+
+import (
+	"github.com/jsightapi/jsight-api-core/directive"
+)
+
+// Read-only accessors for the verification harness (build tag verif).
+
+// VerifDirectives returns the root directives as scanned (after MACRO
+// definitions have been collected they are no longer in this list).
+func (core *JApiCore) VerifDirectives() []*directive.Directive {
+	return core.directives
+}
+
+// VerifExpandedDirectives returns the root directives after PASTE expansion.
+func (core *JApiCore) VerifExpandedDirectives() []*directive.Directive {
+	return core.directivesWithPastes
+}
+
+// VerifMacros returns the macro table.
+func (core *JApiCore) VerifMacros() map[string]*directive.Directive {
+	return core.macro
+}
